@@ -187,6 +187,8 @@ type cluster struct {
 	// again (the node died in between) the operator submits the same result file
 	cacheResults bool
 	resultCache  map[string][]byte
+	// rawResultHook sees the bytes of every result file
+	rawResultHook func(n *vnode, rb []byte)
 }
 
 var testMnemonics = []string{
@@ -388,6 +390,9 @@ func (c *cluster) answerOp(n *vnode, op *types.Operation) error {
 			}
 			c.resultCache[n.name+"/"+cold.ID] = rb
 		}
+	}
+	if c.rawResultHook != nil {
+		c.rawResultHook(n, rb)
 	}
 	var res types.Operation
 	if err := json.Unmarshal(rb, &res); err != nil {
